@@ -104,6 +104,22 @@ def oracle_axis(R: Run, Ns, Nd, s, t, src, dst):
                  f"src={src} dst={dst}", sig="axis-disjoint")
 
 
+def oracle_axis_tight(R: Run, Ns, Nd, s, t, src, dst):
+    """two-sided: each region is exactly the set of pixels whose footprint overlaps the other image (positive length)"""
+    case = {"fn": "compute_axis_overlap", "Ns": Ns, "Nd": Nd, "s": str(s), "t": str(t), "tight": True}
+    lo, hi = min(t, s * Nd + t), max(t, s * Nd + t)  # image of the destination axis in source coordinates
+    want_src = [k for k in range(Ns) if min(k + 1, hi) - max(k, lo) > 0]
+    want_dst = []
+    for d in range(Nd):
+        a, b = sorted((s * d + t, s * (d + 1) + t))
+        if min(b, Ns) - max(a, 0) > 0:
+            want_dst.append(d)
+    got_src, got_dst = list(range(src.start, src.stop)), list(range(dst.start, dst.stop))
+    R.oracle(got_src == want_src and got_dst == want_dst, "axis-not-tight", case,
+             f"src={src} dst={dst}; pixels overlapping the other image: src {want_src[:1]}..{want_src[-1:]}, "
+             f"dst {want_dst[:1]}..{want_dst[-1:]}", sig="axis-tight")
+
+
 def centres(shape):
     ny, nx = shape
     yy, xx = np.meshgrid(np.arange(ny) + 0.5, np.arange(nx) + 0.5, indexing="ij")
@@ -224,7 +240,8 @@ def gen_M_exact(rng, sshape, dshape):
     sny, snx = sshape
     dny, dnx = dshape
     kind = rng.choice(["shift", "shift", "subpix", "subpix", "scale", "scale", "mirror", "rot90", "shear", "rot45"])
-    res = rng.choice([0, 0, 2**-6, -(2**-6), 2**-5, -(2**-5), 2**-4, -(2**-4), 0.25, -0.25, 0.5, 0.375])
+    res = rng.choice([0, 0, 2**-6, -(2**-6), 2**-5, -(2**-5), 2**-4, -(2**-4), 0.25, -0.25, 0.5, 0.375,
+                      2.0**-20, -(2.0**-30), 2.0**-34, -(2.0**-34), 2.0**-40, -(2.0**-40)])
     if kind == "shift":
         L = Affine.identity()
         res = 0
@@ -327,6 +344,7 @@ def run(R: Run):
                     R.corr(f"c03 axis {Ns} {Nd} {frac_s(s)} {frac_s(t)}", f, sig=sig)
                     if res and (R.quick is False or (k + Ns + Nd) % 3 == 0):
                         oracle_axis(R, Ns, Nd, s, t, *res[0])
+                        oracle_axis_tight(R, Ns, Nd, s, t, *res[0])
     R.corr("c03 axis 5 5 0 1", lambda: ns(O.compute_axis_overlap(5, 5, 0.0, 1.0)[0]), sig="axis|s=0")
     for _ in range(R.pick(3000, 30000)):
         Ns, Nd = rng.randint(0, 10**rng.randint(1, 6)), rng.randint(0, 10**rng.randint(1, 6))
@@ -342,6 +360,54 @@ def run(R: Run):
         R.corr(f"c03 axis {Ns} {Nd} {frac_s(s)} {frac_s(t)}", f2, sig="axis|large")
         if res and Nd <= 3000:
             oracle_axis(R, Ns, Nd, s, t, *res[0])
+
+    # --- offsets a hair away from integers / half-integers (dyadic, so still exact): k ± 2^-j
+    for _ in range(R.pick(4000, 40000)):
+        Ns, Nd = rng.randint(0, 12), rng.randint(0, 12)
+        s = Fraction(2) ** rng.randint(-2, 2) * rng.choice([1, -1])
+        base = Fraction(rng.randint(-2 * 12, 3 * 12), 2)
+        t = base + rng.choice([1, -1]) * Fraction(1, 2 ** rng.choice([20, 30, 33, 34, 36, 40, 44]))
+        res = []
+
+        def f3():
+            o = O.compute_axis_overlap(Ns, Nd, float(s), float(t))
+            res.append(o)
+            return f"{ns(o[0])} {ns(o[1])}"
+
+        R.corr(f"c03 axis {Ns} {Nd} {frac_s(s)} {frac_s(t)}", f3, sig="axis|near-int")
+        if res:
+            oracle_axis(R, Ns, Nd, s, t, *res[0])
+            oracle_axis_tight(R, Ns, Nd, s, t, *res[0])
+    # --- huge image sizes (exactly representable; products stay below 2^53)
+    HUGE = [2**24 + 1, 2**31 - 1, 2**31, 2**31 + 1, 2**32 + 1, 2**40 + 1, 2**50 + 3, 2**52 + 1]
+    for _ in range(R.pick(600, 6000)):
+        Ns, Nd = rng.choice(HUGE + [7, 1000]), rng.choice(HUGE + [7, 1000])
+        s = Fraction(rng.choice([1, 1, 2, Fraction(1, 2)])) * rng.choice([1, -1])
+        t = Fraction(rng.choice([0, 1, -1, 5, -7, 2**31, -(2**31) - 1, 2**40 + 1, Ns, Ns - 1, -Nd, 1 - Nd, Ns - Nd, Ns + 1]))
+        if rng.random() < 0.3 and max(Ns, Nd) <= 2**41:
+            t += Fraction(rng.choice([1, 3]), 4)
+        if s < 0:
+            t = Ns - t
+        res = []
+
+        def f4():
+            o = O.compute_axis_overlap(Ns, Nd, float(s), float(t))
+            res.append(o)
+            return f"{ns(o[0])} {ns(o[1])}"
+
+        R.corr(f"c03 axis {Ns} {Nd} {frac_s(s)} {frac_s(t)}", f4, sig="axis|huge")
+        if res:  # closed-form check on the ends (no enumeration possible)
+            src_, dst_ = res[0]
+            ok = 0 <= src_.start <= src_.stop <= Ns and 0 <= dst_.start <= dst_.stop <= Nd
+            for d in {dst_.start - 1, dst_.start, dst_.stop - 1, dst_.stop, 0, Nd - 1}:
+                if 0 <= d < Nd:
+                    x = s * (d + Fraction(1, 2)) + t
+                    if 0 <= x < Ns:
+                        ok = ok and dst_.start <= d < dst_.stop and src_.start <= math.floor(x) < src_.stop
+            R.oracle(ok, "axis-drops-pixel", {"fn": "compute_axis_overlap", "Ns": Ns, "Nd": Nd, "s": str(s), "t": str(t)},
+                     f"huge sizes: src={src_} dst={dst_}", sig="axis-huge")
+    for sc in (2.0**31 + 0.5, 2.0**31 - 2.0**-12, 2.0**40 + 0.25, 2.0**52 + 1, 2.0**53, 2.0**63, 2.0**64, 2.0**100):
+        R.corr(f"c03 pick {frac_s(sc)} {frac_s(1e-3)}", lambda: str(int(O._pick_read_scale(sc))), sig="pick|huge")
 
     # ================================================================ _pick_read_scale, scale, roi_boundary
     for m in range(1, 9):
@@ -360,6 +426,10 @@ def run(R: Run):
                     rs = res[0]
                     R.oracle(rs >= 1 and rs <= max(1, sc + tol) and rs > sc - 1, "pick-read-scale-contract",
                              {"scale": sc, "tol": tol}, f"read_shrink {rs} for scale {sc}", sig="pick")
+    for m in range(1, 6):  # default tolerance of _pick_read_scale (1e-3)
+        for off in (2**-7, 2**-8, 2**-9, 2**-10, 2**-11, 0):
+            sc = m - off
+            R.corr(f"c03 pick {frac_s(sc)} {frac_s(1e-3)}", lambda: str(int(O._pick_read_scale(sc))), sig="pick|default-tol")
     for sc in (0.0, -1.0, 2**-20, 0.999):
         R.corr(f"c03 pick {frac_s(sc)} {frac_s(1e-3)}", lambda: str(int(O._pick_read_scale(sc))), sig="pick|edge")
     for _ in range(R.pick(300, 3000)):
@@ -407,7 +477,9 @@ def run(R: Run):
         pad, al, ttol = options()
         src, dst = gb(sshape, S), gb(dshape, D)
         A6 = fmul(finv(faff(S)), faff(D))
-        assert A6 == faff(M), "generator: D = S*M must be exact"
+        if A6 != faff(M):  # D = S*M was not exact in doubles: not an exact-stream case
+            R.count("plan-skipped-inexact")
+            continue
         rational_root = is_sq(A6[0] ** 2 + A6[3] ** 2)
         res = []
 
@@ -438,6 +510,19 @@ def run(R: Run):
             R.oracle(not r.paste_ok, "paste-ok-for-rotation", case, "paste_ok for a rotated transform", sig="plan|rot-nopaste")
         st = (abs(A6[0]), abs(A6[4])) if (A6[1] == 0 and A6[3] == 0) else None
         oracle_linear(R, case, sshape, dshape, A6, r, pad, al, 0, kind, st_scale=st)
+
+    # --- huge images, whole-pixel shifts (paste path: no float32 boundary sampling involved)
+    for _ in range(R.pick(150, 1500)):
+        sshape = (rng.choice(HUGE[:6] + [9]), rng.choice(HUGE[:6] + [9]))
+        dshape = (rng.choice(HUGE[:6] + [5]), rng.choice(HUGE[:6] + [5]))
+        k = rng.choice([1, 1, 2, 4])
+        sg = (rng.choice([1, -1]), rng.choice([1, -1]))
+        tx = k * rng.choice([0, 1, -3, 2**24, 2**31 + 1, -(2**31), sshape[1] // k - 1, -dshape[1] + 1])
+        ty = k * rng.choice([0, 2, -1, 2**24 + 1, 2**31, sshape[0] // k - 2, -dshape[0] + 2])
+        M = Affine(k * sg[0], 0, tx + (k * dshape[1] if sg[0] < 0 else 0), 0, k * sg[1], ty + (k * dshape[0] if sg[1] < 0 else 0))
+        src, dst = gb(sshape, Affine.identity()), gb(dshape, M)
+        R.corr(f"c03 plan {sshape[0]} {sshape[1]} {dshape[0]} {dshape[1]} 1;0;0;0;1;0 {aff_s(M)} {frac_s(0.05)} {frac_s(1e-3)} N N",
+               lambda: plan_s(O.compute_reproject_roi(src, dst)), sig="plan|huge")
 
     # --- non power-of-two scales: exact dst→src transform substituted for native_pix_transform (paste path only)
     n_patched = R.pick(1200, 12000)
@@ -627,9 +712,16 @@ def cross_crs(R: Run, O, gb):
             continue
         # extent of the experiment: a few km to a few hundred km, kept inside the common area
         ext_deg = min(rng.choice([0.05, 0.2, 0.5, 1.0, 2.0]), (lon1 - lon0) / 2.5, (lat1 - lat0) / 2.5)
+        wide = rng.random() < 0.25 and (lon1 - lon0) > 5 and (lat1 - lat0) > 5
+        if wide:
+            # wide destination, fine source pixels: the boundary images are visibly curved, so the number of
+            # boundary samples per side matters (5 per side keeps the envelope error well below the 1 px padding)
+            ext_deg = min(rng.choice([5.0, 8.0, 10.0, 12.0]), (lon1 - lon0) / 2.5, (lat1 - lat0) / 2.5)
         lon = rng.uniform(lon0 + ext_deg, lon1 - ext_deg)
         lat = rng.uniform(lat0 + ext_deg, lat1 - ext_deg)
         dshape = (rng.randint(8, 70), rng.randint(8, 70))
+        if wide:
+            dshape = (rng.randint(60, 110), rng.randint(60, 110))
         m_per_deg = 111000.0
         unit_b = 1.0 if b == "EPSG:4326" else m_per_deg
         unit_a = 1.0 if a == "EPSG:4326" else m_per_deg
@@ -638,6 +730,13 @@ def cross_crs(R: Run, O, gb):
         res_s = res_d / unit_b * unit_a / rel
         sshape = (rng.randint(20, 160), rng.randint(20, 160))
         off = rng.choice([0, 0, 0.3, 0.6, 1.0, 1.6]) * ext_deg
+        if wide:
+            rel = rng.choice([1, 2, 4])
+            res_s = res_d / unit_b * unit_a / rel
+            k = int(max(dshape) * rel * rng.choice([1.5, 2.0]))
+            sshape = (k, k)
+            off = rng.choice([0, 0, 0.1]) * ext_deg
+            pad = None
         ang = rng.uniform(0, 2 * math.pi)
         slon = min(max(lon + off * math.cos(ang), lon0), lon1)
         slat = min(max(lat + off * math.sin(ang), lat0), lat1)
@@ -646,16 +745,28 @@ def cross_crs(R: Run, O, gb):
             dst = make_box(b, lon, lat, dshape, res_d)
         except Exception:  # pylint: disable=broad-except
             continue
-        pad = rng.choice([None, None, 1, 2, 0])
-        al = rng.choice([None, None, 4, 16])
+        pad = rng.choice([None, None, 1, 2, 0]) if not wide else rng.choice([None, 1])
+        al = rng.choice([None, None, 4, 16]) if not wide else None
         case = {"fn": "compute_reproject_roi", "src_crs": a, "dst_crs": b, "src_shape": sshape, "dst_shape": dshape,
                 "src_affine": list(src.transform)[:6], "dst_affine": list(dst.transform)[:6], "padding": pad, "align": al}
         done += 1
+        seen = []
+        orig_rfp = O.roi_from_points
+
+        def spy(xy, *a_, **k_):
+            seen.append(int(xy.shape[0]))
+            return orig_rfp(xy, *a_, **k_)
+
+        O.roi_from_points = spy
         try:
             r = O.compute_reproject_roi(src, dst, padding=pad, align=al)
         except Exception as e:  # pylint: disable=broad-except
+            O.roi_from_points = orig_rfp
             R.oracle(False, "xcrs-raises", case, f"compute_reproject_roi raised {type(e).__name__}: {e}", sig="xcrs|raises")
             continue
+        O.roi_from_points = orig_rfp
+        if done % 10 == 0:  # branch structure of the cross-CRS path: number of sampled boundary points
+            R.corr(f"c03 nlsamples {dshape[0]} {dshape[1]}", lambda: str(seen[0]) if seen else "none", sig="xcrs|samples")
         # independent mapping of every destination pixel centre: dst pixel → dst world → src world → src pixel
         xx, yy = centres(dshape)
         wx, wy = apply_np(faff(dst.transform), xx, yy)
@@ -664,7 +775,7 @@ def cross_crs(R: Run, O, gb):
         sx[~np.isfinite(sx)] = np.nan
         sy[~np.isfinite(sy)] = np.nan
         px, py = apply_np(finv(faff(src.transform)), sx, sy)
-        anyin = check_cover(R, "xcrs", case, sshape, dshape, px, py, r, 1e-6, f"xcrs|{a[5:]}>{b[5:]}")
+        anyin = check_cover(R, "xcrs", case, sshape, dshape, px, py, r, 1e-6, f"xcrs|{a[5:]}>{b[5:]}" + ("|wide" if wide else ""))
         R.oracle(r.paste_ok is False, "xcrs-paste-ok", case, "paste_ok across CRSs", sig="xcrs|nopaste", trivial=True)
         # scale: destination-to-source pixel size ratio at the centre of the overlap (finite differences via pyproj)
         (yd, xd) = r.roi_dst
